@@ -20,7 +20,7 @@ import logging
 import asyncio as aio
 from typing import Any
 from collections.abc import Awaitable, Coroutine
-from .utils import gen_nonce
+from .utils import gen_nonce, timestamp
 from .encoding import BinaryStr, TypeNumber, LpTypeNumber, parse_interest, \
     parse_tl_num, parse_data, DecodeError, Name, NonStrictName, MetaInfo, \
     make_data, InterestParam, make_interest, FormalName, SignaturePtrs, parse_lp_packet, Component
@@ -50,6 +50,7 @@ class NDNApp:
     data_validator: Validator = None
     _autoreg_routes: list[tuple[FormalName, Route, Validator | None, bool, bool]]
     _prefix_register_semaphore: aio.Semaphore = None
+    _last_command_timestamp: int = 0
     logger: logging.Logger
 
     def __init__(self, face=None, keychain=None):
@@ -426,9 +427,11 @@ class NDNApp:
 
         # Fix the issue that NFD only allows one packet signed by a specific key for a timestamp number
         async with self._prefix_register_semaphore:
+            # ... and requires the timestamps of successive commands to increase
+            self._last_command_timestamp = max(timestamp(), self._last_command_timestamp + 1)
             try:
                 _, _, reply = await self.express_interest(
-                    name=make_command('rib', 'register', self.face, name=name),
+                    name=make_command('rib', 'register', self.face, self._last_command_timestamp, name=name),
                     lifetime=1000)
                 try:
                     ret = parse_response(reply)
@@ -463,9 +466,11 @@ class NDNApp:
             pass
         # Commands are issued one at a time (see register)
         async with self._prefix_register_semaphore:
+            self._last_command_timestamp = max(timestamp(), self._last_command_timestamp + 1)
             try:
                 _, _, reply = await self.express_interest(
-                    make_command('rib', 'unregister', self.face, name=name), lifetime=1000)
+                    make_command('rib', 'unregister', self.face, self._last_command_timestamp, name=name),
+                    lifetime=1000)
                 try:
                     ret = parse_response(reply)
                 except (DecodeError, ValueError, IndexError, TypeError, struct.error):
